@@ -589,10 +589,14 @@ def context_for(key, rng, plain=False):
     elif pre == 'growing':
         ctx['up']['growing.ndirs_initial'] = int(rng.integers(1, n))
     elif pre in ('dykstra', 'matrix_rank'):
+        prob = gen_problem(rng, 2, 3, kinds)
+        n = prob['n']
         ctx['proj'] = [{'t': 'ball', 'r': float(2.0).hex()}]
         if rng.random() < 0.5:
             ctx['proj'].append({'t': 'half', 'a': hxl(np.ones(n)), 'b': float(1.0).hex()})
-        maxfun = int(rng.integers(15, 30))
+        if key != 'dykstra.max_iters':
+            ctx['up']['dykstra.max_iters'] = 20      # the projected-gradient solver calls Dykstra 100*n^2 times a step
+        maxfun = int(rng.integers(10, 18))
     elif pre in ('func_tol', 'sfista'):
         prob = gen_problem(rng, 2, 3, ('lin',))
         n = prob['n']
@@ -998,6 +1002,11 @@ def random_case(rng):
         feats.append('growing')
     if rng.random() < 0.2:
         up.setdefault('logging.save_diagnostic_info', True)
+    if ctx['proj']:
+        # the projected-gradient solver runs up to 100*n^2 Dykstra calls per step: keep the budget and Dykstra's cap small
+        if 'maxfun' not in ctx['args'] or dec(ctx['args']['maxfun']) > 30:
+            ctx['args']['maxfun'] = enc(int(rng.integers(8, 30)))
+        up['dykstra.max_iters'] = min(up.get('dykstra.max_iters', 20), 20) or 20
     if ctx['regu'] is not None:
         # S-FISTA x Dykstra can cost ~1 s of CPU per iteration with the default caps (500 x 100), and iterations need
         # not evaluate the objective: keep both caps small (in-range values) so that the hang watchdog stays meaningful
@@ -1035,16 +1044,17 @@ def tasks(seed, tier):
     quick = (tier == 'quick')
     out = []
     chunk = 4 if quick else 2
-    reps = 1 if quick else 10          # problems/contexts per key: (1 live) resp. (7 live + 3 plain)
+    reps = 2 if quick else 12          # problems/contexts per key; every other (quick) / fourth (thorough) one is plain
     i = 0
     for rep in range(reps):
+        plain = (rep % 2 == 1) if quick else (rep % 4 == 3)
         for j in range(0, len(keys), chunk):
-            out.append(('keys', int(seed), i, keys[j:j + chunk], bool((not quick) and rep % 3 == 2)))
+            out.append(('keys', int(seed), i, keys[j:j + chunk], bool(plain)))
             i += 1
-    for j in range(6 if quick else 120):
+    for j in range(10 if quick else 160):
         out.append(('args', int(seed), i, 40))
         i += 1
-    for j in range(16 if quick else 320):
+    for j in range(32 if quick else 640):
         out.append(('random', int(seed), i, 12))
         i += 1
     out.append(('misc', int(seed), i, 30 if quick else 300))
